@@ -119,4 +119,10 @@ def canon : Tok → CTok
   | .left => .special 60 | .right => .special 62 | .at => .special 64 | .comma => .special 44
   | .semi => .special 59 | .colon => .special 58 | .dot => .special 46
 
+/-- **an RFC 822 atom character, from the RFC's own grammar** (§3.3): any CHAR (0-127) except the specials
+`( ) < > @ , ; : \ " . [ ]`, SPACE and the CTLs (0-31, 127) -/
+def rfc822Atom (c : Byte) : Bool :=
+  decide (c.toNat > 32) && decide (c.toNat < 127) &&
+    !([40, 41, 60, 62, 64, 44, 59, 58, 92, 34, 46, 91, 93] : List Byte).contains c
+
 end Nq.Spec.Lex822
